@@ -39,6 +39,8 @@ func TestMain(m *testing.M) { engine.Main(m) }
 
 const altHost = "alt.example"
 
+const exoticNonce = "n 1+/%&#\u00e9:@=?"
+
 var allAlgs = []string{"RS256", "RS384", "RS512", "PS256", "PS384", "PS512", "ES256", "ES384", "ES512", "EdDSA"}
 
 // scope shapes; element 0 is the default.
@@ -52,6 +54,70 @@ var scopeShapes = map[string]string{
 	"opco":   "openid profile custom offline_access",
 	"pe":     "profile email", // no openid
 	"oe-off": "openid email offline_access",
+	// identifier alphabet applied to scope tokens (wave 4): every token is a legal RFC 6749 scope-token
+	// (%x21 / %x23-5B / %x5D-7E) carrying the characters form / JSON / fragment encodings treat specially ...
+	"ox": "openid custom " + strings.Join(exoticScopesASCII, " "),
+	// ... and tokens outside that range (non-ASCII)
+	"ox8": "openid " + strings.Join(exoticScopesUTF8, " ") + " profile",
+}
+
+var exoticScopesASCII = []string{"urn:x:read", "https://api.example/r?a=1&b=2#f", "a+b", "50%", "a%40b", "x@y", "a|b", "Custom"}
+var exoticScopesUTF8 = []string{"caf\u00e9", "\u2211x"}
+
+// identClasses: the identifier alphabet (DESIGN 5.5, round-4 family "identifier alphabets"). One generator for every
+// identifier the check composes: end-user subjects (base "u1"), the client of the user flows (base "web"), the service
+// user of client_credentials (base "svc") and the jwt-bearer client (base "jwt").
+var identClasses = []string{"plain", "email", "pipe", "plus", "space", "slash", "percent", "pct-escape", "non-ascii", "amp-hash", "ws-pad", "upper", "colon"}
+
+func ident(class, base string) string {
+	switch class {
+	case "email":
+		return base + "@example.com"
+	case "pipe":
+		return "auth0|" + base
+	case "plus":
+		return base + "+x"
+	case "space":
+		return base + " x"
+	case "slash":
+		return "dir/" + base
+	case "percent":
+		return base + "%" // not a valid percent-escape
+	case "pct-escape":
+		return base + "%40x%2B" // reads like percent-escapes
+	case "non-ascii":
+		return base + "-\u00e9\u2211"
+	case "amp-hash":
+		return base + "&a=b#c?d;e"
+	case "ws-pad":
+		return " " + base + " "
+	case "upper":
+		return strings.ToUpper(base[:1]) + base[1:]
+	case "colon":
+		return "urn:" + base + ":1" // the documented opaque-token format is <id>:<subject>
+	}
+	return base
+}
+
+// registerIdentities adds, for every identifier class, a copy of user u1, of client web, of client jwt and of service
+// user svc under the identifier of that class (same secrets, keys, grants).
+func registerIdentities(cfg *refstore.Config) {
+	extra := append(append([]string{"custom"}, exoticScopesASCII...), exoticScopesUTF8...)
+	cfg.Clients["web"].ExtraScopes = extra
+	for _, cl := range identClasses[1:] {
+		u := *cfg.Users["u1"]
+		u.ID = ident(cl, "u1")
+		cfg.Users[u.ID] = &u
+		w := *cfg.Clients["web"]
+		w.ID = ident(cl, "web")
+		cfg.Clients[w.ID] = &w
+		j := *cfg.Clients["jwt"]
+		j.ID = ident(cl, "jwt")
+		cfg.Clients[j.ID] = &j
+		sv := *cfg.ServiceUsers["svc"]
+		sv.ID = ident(cl, "svc")
+		cfg.ServiceUsers[sv.ID] = &sv
+	}
 }
 
 // The space is the same in both tiers (replay files stay valid); the tiers differ in
@@ -72,7 +138,7 @@ func buildSpace() engine.Space {
 		// adds its default 1 s offset to the clock when it checks exp (a 1 s token is "expired" in the second it is issued)
 		engine.D("idlt", "1h0m0s", "1m0s", "2s"),
 		engine.D("atlt", "5m0s", "1h0m0s", "1m0s", "1s"),
-		engine.D("scopes", "ope", "o", "opa", "all", "oo", "oc", "opco", "pe", "oe-off"),
+		engine.D("scopes", "ope", "o", "opa", "all", "oo", "oc", "opco", "pe", "oe-off", "ox", "ox8"),
 		engine.D("uiassert", "off", "on"),
 		// "colliding-all": a custom claim for EVERY registered claim name of both token kinds (see evilClaims)
 		engine.D("private", "none", "x", "colliding", "colliding-all"),
@@ -80,7 +146,7 @@ func buildSpace() engine.Space {
 		engine.D("issuer", "static", "static-althost", "host", "host-alt", "host-mixed", "host-mixed-rev"),
 		// no-jp: the storage lacks op.JWTProfileTokenStorage (jwt-bearer access tokens are then opaque)
 		engine.D("caps", "all", "no-ui", "no-jp"),
-		engine.D("nonce", "n-1", "absent"),
+		engine.D("nonce", "n-1", "absent", "exotic"),
 		engine.D("exvar", "idt", "rt", "at", "idt+aud", "at+aud"),
 		engine.D("rnarrow", "same", "drop-userinfo", "drop-openid"),
 		engine.D("probe", "none", "wrong-issuer", "wrong-client", "foreign-keys", "after-expiry", "before-expiry", "other-at", "other-crypto-key"),
@@ -93,6 +159,12 @@ func buildSpace() engine.Space {
 		//  twin-samekid the priming issuance happens on ANOTHER provider over another storage whose key has the same
 		//               kid and algorithm but different key material
 		engine.D("rotate", "none", "newkid-mid", "samekid-pre", "twin-samekid"),
+		// identifier alphabets (wave 4). subject: the end user who logs in / approves the device (code, implicit, refresh,
+		// device, exchange flows), the service user of client_credentials, the client of the jwt-bearer grant (its own
+		// subject). client: the client of the user flows. Every issued access token is additionally presented to every
+		// reader of the library (userinfo, introspection, token exchange, revocation), see probeReaders.
+		engine.D("subject", identClasses...),
+		engine.D("client", identClasses...),
 	}
 }
 
@@ -104,6 +176,7 @@ var thoroughTier bool
 
 type caseT struct {
 	flow, attype, alg, router, scopesName, private, issuer, caps, nonce, exvar, rnarrow, probe, rotate string
+	subjClass, clientClass                                                                  string
 	routerIdx                                                                               int
 	skew, idlt, atlt                                                                        time.Duration
 	uiassert                                                                                bool
@@ -113,7 +186,8 @@ type caseT struct {
 func decode(v engine.Vec) caseT {
 	g := func(n string) string { return space.Get(v, n) }
 	c := caseT{flow: g("flow"), attype: g("attype"), alg: g("key"), router: g("router"), scopesName: g("scopes"), private: g("private"),
-		issuer: g("issuer"), caps: g("caps"), nonce: g("nonce"), exvar: g("exvar"), rnarrow: g("rnarrow"), probe: g("probe"), rotate: g("rotate")}
+		issuer: g("issuer"), caps: g("caps"), nonce: g("nonce"), exvar: g("exvar"), rnarrow: g("rnarrow"), probe: g("probe"), rotate: g("rotate"),
+		subjClass: g("subject"), clientClass: g("client")}
 	if r := g("slowkey"); r != "-" {
 		c.alg = r
 	}
@@ -125,10 +199,36 @@ func decode(v engine.Vec) caseT {
 	c.atlt, _ = time.ParseDuration(g("atlt"))
 	c.uiassert = g("uiassert") == "on"
 	c.scopes = strings.Fields(scopeShapes[c.scopesName])
-	if c.nonce == "absent" {
+	switch c.nonce {
+	case "absent":
 		c.nonce = ""
+	case "exotic":
+		c.nonce = exoticNonce
 	}
 	return c
+}
+
+func (c caseT) user() string     { return ident(c.subjClass, "u1") }
+func (c caseT) clientID() string { return ident(c.clientClass, "web") }
+func (c caseT) svcID() string    { return ident(c.subjClass, "svc") }
+func (c caseT) jwtID() string    { return ident(c.subjClass, "jwt") }
+
+// lenient: why a refusal of the flow is left open (Either). The statement speaks about the tokens the OP returns; it
+// does not oblige the OP to serve clients / scope tokens with unusual names, and the documented opaque-token format
+// <id>:<subject> lets the readers refuse a subject that contains the separator (token exchange with such a token as
+// subject token). "" = the flow must be served.
+func (c caseT) lenient() string {
+	switch {
+	case c.clientClass != "plain":
+		return "exotic-client"
+	case (c.flow == "cc" || c.flow == "jwt") && c.subjClass != "plain":
+		return "exotic-client" // the subject of these grants is the client itself
+	case c.subjClass == "colon":
+		return "colon-subject"
+	case c.scopesName == "ox" || c.scopesName == "ox8":
+		return "exotic-scope"
+	}
+	return ""
 }
 
 func isEx(flow string) bool { return strings.HasPrefix(flow, "ex-") }
@@ -194,6 +294,9 @@ func skip(v engine.Vec) bool {
 	}
 	if nd("exvar") && !isEx(flow) {
 		return true
+	}
+	if nd("client") && (flow == "cc" || flow == "jwt") {
+		return true // the client of these grants is named by "subject"
 	}
 	if nd("rnarrow") {
 		if flow != "refresh" {
@@ -391,6 +494,7 @@ func (w *worker) rigFor(c caseT) *rig.Rig {
 		o.IssuerFn = op.IssuerFromHost("")
 	}
 	r := rig.MustNew(o)
+	registerIdentities(r.Core.Cfg)
 	w.rigs[key] = r
 	return r
 }
@@ -418,9 +522,12 @@ func (w *worker) configure(r *rig.Rig, c caseT) keyPlan {
 	if c.attype == "jwt" {
 		at = op.AccessTokenTypeJWT
 	}
-	web := cfg.Clients["web"]
-	web.ATType, web.Skew, web.IDTLifetime, web.UIAssertion = at, c.skew, c.idlt, c.uiassert
-	svc := cfg.ServiceUsers["svc"]
+	// "web" itself serves the priming issuance of the rotate histories and calls the readers: always configured
+	for _, id := range []string{"web", c.clientID()} {
+		web := cfg.Clients[id]
+		web.ATType, web.Skew, web.IDTLifetime, web.UIAssertion = at, c.skew, c.idlt, c.uiassert
+	}
+	svc := cfg.ServiceUsers[c.svcID()]
 	svc.ATType, svc.Skew = at, c.skew
 	cfg.JWTProfileAT = at
 	cfg.ATLifetime = c.atlt
@@ -439,6 +546,8 @@ type driver struct {
 	c      caseT
 	router int
 	plan   keyPlan
+	client string // client of the user flows
+	auth   string // its basic credentials
 }
 
 // mixable: the flow has a precursor leg that a provider with op.IssuerFromHost must serve under another Host than
@@ -551,9 +660,11 @@ func (d *driver) post(final bool, path string, form url.Values, auth string) *ri
 
 var webAuth = rig.Basic("web", "secret-web")
 
+const redirectURI = "https://rp.example/cb"
+
 // authorize runs authorize → login (user) → callback and returns the callback response.
 func (d *driver) authorize(final bool, respType string, scopes []string, nonce, user string) (*rig.Resp, string) {
-	q := url.Values{"client_id": {"web"}, "redirect_uri": {"https://rp.example/cb"}, "response_type": {respType},
+	q := url.Values{"client_id": {d.client}, "redirect_uri": {"https://rp.example/cb"}, "response_type": {respType},
 		"scope": {strings.Join(scopes, " ")}, "state": {"st-1"}}
 	if nonce != "" {
 		q.Set("nonce", nonce)
@@ -574,7 +685,7 @@ func (d *driver) authorize(final bool, respType string, scopes []string, nonce, 
 
 // codeGrant: full code flow; returns the token response and the code.
 func (d *driver) codeGrant(final bool, scopes []string, nonce string) (*rig.Resp, string, string) {
-	cb, stage := d.authorize(false, "code", scopes, nonce, "u1")
+	cb, stage := d.authorize(false, "code", scopes, nonce, d.c.user())
 	if stage != "" {
 		return cb, "", stage
 	}
@@ -585,7 +696,7 @@ func (d *driver) codeGrant(final bool, scopes []string, nonce string) (*rig.Resp
 	code := u.Query().Get("code")
 	time.Sleep(2 * time.Second)
 	f := url.Values{"grant_type": {"authorization_code"}, "code": {code}, "redirect_uri": {"https://rp.example/cb"}}
-	return d.post(final, "/oauth/token", f, webAuth), code, ""
+	return d.post(final, "/oauth/token", f, d.auth), code, ""
 }
 
 // outcome of driving a flow up to (and including) its final request
@@ -629,7 +740,7 @@ func fragmentParams(resp *rig.Resp) map[string]string {
 	if u == nil {
 		return out
 	}
-	q, err := url.ParseQuery(u.Fragment)
+	q, err := url.ParseQuery(u.EscapedFragment()) // the fragment is form-encoded: decode it once, not twice
 	if err != nil {
 		return out
 	}
@@ -647,7 +758,7 @@ func fragmentParams(resp *rig.Resp) map[string]string {
 
 func (d *driver) run() (o flowOut) {
 	c := d.c
-	o.exp = expect{client: "web", subject: "u1", skew: c.skew, idlt: c.idlt, atlt: c.atlt, granted: c.scopes, alg: c.alg, kid: "cur-" + c.alg}
+	o.exp = expect{client: d.client, subject: c.user(), skew: c.skew, idlt: c.idlt, atlt: c.atlt, granted: c.scopes, alg: c.alg, kid: "cur-" + c.alg}
 	o.exp.issuer = d.expectedIssuer()
 	e := &o.exp
 	mark := func() {
@@ -678,7 +789,7 @@ func (d *driver) run() (o flowOut) {
 	switch c.flow {
 	case "code":
 		// inline so that "before" is taken right before the token request
-		cb, stage := d.authorize(false, "code", c.scopes, c.nonce, "u1")
+		cb, stage := d.authorize(false, "code", c.scopes, c.nonce, c.user())
 		if stage != "" {
 			o.stage, o.resp = stage, cb
 			return
@@ -694,7 +805,7 @@ func (d *driver) run() (o flowOut) {
 		}
 		time.Sleep(2 * time.Second)
 		mark()
-		o.resp = d.post(true, "/oauth/token", url.Values{"grant_type": {"authorization_code"}, "code": {code}, "redirect_uri": {"https://rp.example/cb"}}, webAuth)
+		o.resp = d.post(true, "/oauth/token", url.Values{"grant_type": {"authorization_code"}, "code": {code}, "redirect_uri": {"https://rp.example/cb"}}, d.auth)
 		o.params = jsonParams(o.resp)
 		e.nonce, e.amr, e.code = c.nonce, []string{"pwd"}, code
 		e.wantID, e.wantAT = idWanted(c.scopes), true
@@ -704,7 +815,7 @@ func (d *driver) run() (o flowOut) {
 			rt = "id_token token"
 		}
 		// authorize() sleeps 4 s between login and callback; the callback is the final request
-		q := url.Values{"client_id": {"web"}, "redirect_uri": {"https://rp.example/cb"}, "response_type": {rt},
+		q := url.Values{"client_id": {d.client}, "redirect_uri": {"https://rp.example/cb"}, "response_type": {rt},
 			"scope": {strings.Join(c.scopes, " ")}, "state": {"st-1"}}
 		if c.nonce != "" {
 			q.Set("nonce", c.nonce)
@@ -717,7 +828,7 @@ func (d *driver) run() (o flowOut) {
 		}
 		id := u.Query().Get("authRequestID")
 		time.Sleep(3 * time.Second)
-		if err := d.r.Core.Login(id, "u1"); err != nil {
+		if err := d.r.Core.Login(id, c.user()); err != nil {
 			o.stage, o.resp = "login", resp
 			return
 		}
@@ -751,26 +862,26 @@ func (d *driver) run() (o flowOut) {
 			f.Set("scope", strings.Join(e.granted, " "))
 		}
 		mark()
-		o.resp = d.post(true, "/oauth/token", f, webAuth)
+		o.resp = d.post(true, "/oauth/token", f, d.auth)
 		o.params = jsonParams(o.resp)
 		e.amr = []string{"pwd"}
 		e.wantID, e.wantAT = idWanted(e.granted), true
 	case "device":
-		da := d.post(false, "/device_authorization", url.Values{"scope": {strings.Join(c.scopes, " ")}}, webAuth)
+		da := d.post(false, "/device_authorization", url.Values{"scope": {strings.Join(c.scopes, " ")}}, d.auth)
 		dc, uc := da.Str("device_code"), da.Str("user_code")
 		if da.Status != 200 || dc == "" || uc == "" {
 			o.stage, o.resp = "device-authorization", da
 			return
 		}
 		time.Sleep(5 * time.Second)
-		if err := d.r.Core.ApproveDevice(uc, "u1"); err != nil {
+		if err := d.r.Core.ApproveDevice(uc, c.user()); err != nil {
 			o.stage, o.resp = "approve", da
 			return
 		}
 		e.authTime = time.Now()
 		time.Sleep(5 * time.Second)
 		mark()
-		o.resp = d.post(true, "/oauth/token", url.Values{"grant_type": {string(oidc.GrantTypeDeviceCode)}, "device_code": {dc}}, webAuth)
+		o.resp = d.post(true, "/oauth/token", url.Values{"grant_type": {string(oidc.GrantTypeDeviceCode)}, "device_code": {dc}}, d.auth)
 		o.params = jsonParams(o.resp)
 		e.amr = []string{"pwd"}
 		e.wantAT = true
@@ -780,17 +891,17 @@ func (d *driver) run() (o flowOut) {
 	case "cc":
 		time.Sleep(2 * time.Second)
 		mark()
-		o.resp = d.post(true, "/oauth/token", url.Values{"grant_type": {"client_credentials"}, "scope": {strings.Join(c.scopes, " ")}}, rig.Basic("svc", "secret-svc"))
+		o.resp = d.post(true, "/oauth/token", url.Values{"grant_type": {"client_credentials"}, "scope": {strings.Join(c.scopes, " ")}}, rig.Basic(c.svcID(), "secret-svc"))
 		o.params = jsonParams(o.resp)
-		e.client, e.subject = "svc", "svc"
+		e.client, e.subject = c.svcID(), c.svcID()
 		e.wantAT = true
 	case "jwt":
 		time.Sleep(2 * time.Second)
 		mark()
-		a := assertion("jwt", e.issuer, o.now)
+		a := assertion(c.jwtID(), e.issuer, o.now)
 		o.resp = d.post(true, "/oauth/token", url.Values{"grant_type": {string(oidc.GrantTypeBearer)}, "assertion": {a}, "scope": {strings.Join(c.scopes, " ")}}, "")
 		o.params = jsonParams(o.resp)
-		e.client, e.subject, e.skew = "jwt", "jwt", 0
+		e.client, e.subject, e.skew = c.jwtID(), c.jwtID(), 0
 		e.reqAud = []string{e.issuer}
 		e.granted = nil
 		for _, s := range c.scopes { // the reference storage grants only these to assertion holders
@@ -842,7 +953,7 @@ func (d *driver) run() (o flowOut) {
 		}
 		mark()
 		e.authTime = o.now
-		o.resp = d.post(true, "/oauth/token", f, webAuth)
+		o.resp = d.post(true, "/oauth/token", f, d.auth)
 		o.params = jsonParams(o.resp)
 	}
 	return
@@ -876,7 +987,7 @@ func (w *worker) runCase(v engine.Vec) engine.Result {
 	}
 	var res engine.Result
 	pan := engine.Bubble(w.t, 1000*time.Hour, func() {
-		d := &driver{r: r, twin: twin, c: c, router: c.routerIdx, plan: plan}
+		d := &driver{r: r, twin: twin, c: c, router: c.routerIdx, plan: plan, client: c.clientID(), auth: rig.Basic(c.clientID(), "secret-web")}
 		out := d.run()
 		res = judge(d, &out)
 	})
@@ -916,5 +1027,6 @@ func TestCheck(t *testing.T) {
 			return w.runCase
 		},
 	})
+	c.Extra("reader_probes", map[string]int64{"attributed_to_stored_id_and_subject": readerStats.attributed.Load(), "refused_for_subject_with_colon(either)": readerStats.colonRefused.Load()})
 	c.Finish()
 }
